@@ -781,6 +781,25 @@ func refusableSubjects() []*subject {
 		s.MayRefuse = true
 		out = append(out, s)
 	}
+	// a node list that is not topologically sorted (ONNX requires the order; an executor may learn to cope)
+	{
+		mk := func(order []int) []byte {
+			nodes := []*onnx.NodeProto{hx.Node("Relu", []string{"x"}, []string{"a"}, nil), hx.Node("Tanh", []string{"x"}, []string{"b"}, nil), hx.Node("Add", []string{"a", "b"}, []string{"c"}, nil), hx.Node("Mul", []string{"c", "w"}, []string{"d"}, nil)}
+			g := &onnx.GraphProto{Name: "g", Input: []*onnx.ValueInfoProto{hx.ValueInfo("x", ref.F32, hx.SymbolicDims(2, "n"))},
+				Initializer: []*onnx.TensorProto{hx.TensorProto("w", f(9, 3), "raw")},
+				Output:      []*onnx.ValueInfoProto{hx.ValueInfoNoShape("d"), hx.ValueInfoNoShape("c"), hx.ValueInfoNoShape("a")}}
+			for _, i := range order {
+				g.Node = append(g.Node, nodes[i])
+			}
+			return hx.Marshal(hx.Model(g, 13))
+		}
+		for name, order := range map[string][]int{"consumer-before-producer": {0, 2, 1, 3}, "reversed": {3, 2, 1, 0}} {
+			s := newSubject("refusable:unsorted-nodes["+name+"]", mk(order), map[string]*ref.T{"x": f(1, 2, 3)}, []string{"d", "c", "a"}, nil, "composition", "refusable")
+			s.MayRefuse, s.RefModel = true, mk([]int{0, 1, 2, 3})
+			out = append(out, s)
+		}
+	}
+	sort.Slice(out, func(i, j int) bool { return out[i].Name < out[j].Name })
 	return out
 }
 
@@ -820,7 +839,7 @@ func c17Subjects(thorough, prepare bool) (subs, expl []*subject) {
 		if byOp[k].Name == "sample:ndm" {
 			continue
 		}
-		if !thorough && strings.Contains(k, "[elem=") {
+		if !thorough && (strings.Contains(k, "[elem=") || strings.Contains(k, "[large")) {
 			continue // per-element-type variants: frozen and collector passes in the quick tier, every pass in the thorough tier
 		}
 		expl = append(expl, byOp[k])
